@@ -705,6 +705,30 @@ func (r *Runtime) typedArrayProto_forEach(call FunctionCall) Value {
 	panic(r.NewTypeError("Method TypedArray.prototype.forEach called on incompatible receiver %s", r.objectproto_toString(FunctionCall{This: call.This})))
 }
 
+// searchFloat searches a Float32Array or a Float64Array (ok is false for the other types) for an element equal to the
+// Number v, starting at k. The raw bits cannot be compared because of -0, NaN payloads and search values that are not
+// a float32.
+func (ta *typedArrayObject) searchFloat(v Value, k, step int, matchNaN bool) (idx int, ok bool) {
+	f32, _ := ta.typedArray.(*float32Array)
+	f64, _ := ta.typedArray.(*float64Array)
+	if f32 == nil && f64 == nil {
+		return -1, false
+	}
+	f := v.ToFloat()
+	for ; k >= 0 && k < ta.length; k += step {
+		var e float64
+		if f32 != nil {
+			e = float64(*f32.ptr(ta.offset + k))
+		} else {
+			e = *f64.ptr(ta.offset + k)
+		}
+		if e == f || matchNaN && e != e && f != f {
+			return k, true
+		}
+	}
+	return -1, true
+}
+
 func (r *Runtime) typedArrayProto_includes(call FunctionCall) Value {
 	if ta, ok := r.toObject(call.This).self.(*typedArrayObject); ok {
 		ta.viewedArrayBuf.ensureNotDetached(true)
@@ -734,6 +758,9 @@ func (r *Runtime) typedArrayProto_includes(call FunctionCall) Value {
 			return valueFalse
 		}
 		if ta.typedArray.typeMatch(searchElement) {
+			if k, ok := ta.searchFloat(searchElement, startIdx, 1, true); ok {
+				return r.toBoolean(k >= 0)
+			}
 			se := ta.typedArray.toRaw(searchElement)
 			for k := startIdx; k < ta.length; k++ {
 				if ta.typedArray.getRaw(ta.offset+k) == se {
@@ -788,6 +815,9 @@ func (r *Runtime) typedArrayProto_indexOf(call FunctionCall) Value {
 				searchElement = _positiveZero
 			}
 			if !IsNaN(searchElement) && ta.typedArray.typeMatch(searchElement) {
+				if k, ok := ta.searchFloat(searchElement, toIntStrict(n), 1, false); ok {
+					return intToValue(int64(k))
+				}
 				se := ta.typedArray.toRaw(searchElement)
 				for k := toIntStrict(n); k < ta.length; k++ {
 					if ta.typedArray.getRaw(ta.offset+k) == se {
@@ -879,6 +909,9 @@ func (r *Runtime) typedArrayProto_lastIndexOf(call FunctionCall) Value {
 				searchElement = _positiveZero
 			}
 			if !IsNaN(searchElement) && ta.typedArray.typeMatch(searchElement) {
+				if k, ok := ta.searchFloat(searchElement, toIntStrict(fromIndex), -1, false); ok {
+					return intToValue(int64(k))
+				}
 				se := ta.typedArray.toRaw(searchElement)
 				for k := toIntStrict(fromIndex); k >= 0; k-- {
 					if ta.typedArray.getRaw(ta.offset+k) == se {
